@@ -55,3 +55,4 @@ open Pandora.C06
 #print axioms Pandora.C06KernelsLoop.loopApproxRefinementPx_invalid
 #print axioms Pandora.C06KernelsLoop.wiring_subpixel
 #print axioms Pandora.C06KernelsLoop.wiring_approximate
+#print axioms Pandora.C06KernelsLoop.loopApproxRefinementPx_eq
